@@ -164,6 +164,8 @@ class Xor(pg.Xor):
                 default=default, 
                 variable=any_proposition.variable
             )
+            # the replaced node keeps an auto generated id, so it is still a generated (virtual) variable
+            self.propositions[i].generated_id = any_proposition.generated_id
             
 
     def to_json(self):
